@@ -55,6 +55,7 @@ PROP = {
         "Multi.C03.algo_remove_on_views",
         "Multi.C03.algo_partition_on_views",
         "Multi.C03.algo_unique_on_views",
+        "Multi.C03.algo_sort16_on_views",
         "Multi.C03.algo_reverse_on_elements",
         "Multi.C03.algo_fill_on_elements",
         "Multi.C03.algo_copy_on_elements",
@@ -62,10 +63,11 @@ PROP = {
         "Multi.C03.algo_accumulate_on_elements",
         "Multi.C03.algo_partition_on_elements",
         "Multi.C03.algo_unique_on_elements",
+        "Multi.C03.algo_sort16_on_elements",
     ],
     "harnesses": [{"name": "algos", "src": "algos.cpp", "flags": ["-O0"], "modes": ["all"], "programs": {"quick": 16000, "thorough": 800000}, "driver": "mmdrv_store"}],
     "trusted_base": TRUSTED_COMMON + GEN_ITERS_TRUST + GEN_STORE_TRUST + [
-        "MultiProofs/AlgoProgs.lean: hand transcriptions of 16 libstdc++ loops (g++ 12 bits/stl_algobase.h, stl_algo.h, stl_numeric.h) as interface programs; that libstdc++ runs these programs is trusted and validated on every run by the `x tr` lines: the real std:: algorithm on a std::vector<long> against the transcription run by the Lean driver (Driver/AlgoTr.lean) on the same values — position and contents cell for cell, including the unspecified cells behind the position returned by remove/unique and the exact arrangement partition produces",
+        "MultiProofs/AlgoProgs.lean: hand transcriptions of 17 libstdc++ loops (g++ 12 bits/stl_algobase.h, stl_algo.h, stl_numeric.h) as interface programs; that libstdc++ runs these programs is trusted and validated on every run by the `x tr` lines: the real std:: algorithm on a std::vector<long> against the transcription run by the Lean driver (Driver/AlgoTr.lean) on the same values — position and contents cell for cell, including the unspecified cells behind the position returned by remove/unique and the exact arrangement partition produces",
         "libstdc++'s algorithms are NOT verified: that each of the 20 listed algorithms interacts with its range only through the interface of MultiProofs/SeqSpec.lean (iterator arithmetic, read, write, assign, swap) is an assumption, validated by the differential run against std::vector of independent values",
         "for the C03 stream the Lean driver only echoes `algo ok`: the oracle is the reference computed inside harness/algos.cpp (same std:: algorithm on std::vector<int> / std::vector<multi::array<int, D-1>>), as DESIGN §6 C03 prescribes",
     ],
@@ -74,7 +76,7 @@ PROP = {
                     "comparisons made by an algorithm depend only on the values read (for rows: C07 lt_is_lex / eq_iff)"],
     "rule": ("cases = algorithm (20 listed) x range kind {begin()/end() rows, elements()} x view {plain array, sub-block / strided / permuted-axes view embedded in a larger array, random walk of C01 operations} "
              "x D 1..3 x leading size 0..8 x data with duplicates (modulus 2..6) x position arguments; each case runs the real algorithm on the view and on std::vector of independent values and compares contents, "
-             "returned position and every storage cell outside the written view(s) including guard cells; plus 1..3 transcription cases per program (x tr: one of the 16 transcribed loops x length 0..12 x values with duplicates x valid positions; std::vector<long> against the Lean program, all cells); distinct = different program text; non-trivial = at least one algorithm case on a view built by >= 1 operation"),
-    "level_text": "Theorem proxy_refines_seq (all D >= 1, every well-formed injective view, every program over the proxy interface whose next step may depend on all values read): running the program on memory through begin()/end() proxies (decay read, deep assignment = C05, swap, iterator arithmetic = C02) and then abstracting the rows equals abstracting and running on a list of independent values, with the same returned position and all memory outside the view unchanged; elements_refines_seq: the same through the flat elements() range; positions_are_integers; For 16 algorithms whose libstdc++ implementation is a simple loop (reverse, fill, copy_n, copy, move, copy_backward, swap_ranges, transform, find/find_if, equal, accumulate, is_sorted, lexicographical_compare, remove/remove_if, partition [bidirectional version: result is a permutation, returned position = number of rows satisfying p, all before satisfy p, none after], unique [prefix = input with every row equal to the last kept one dropped]) the loop is hand-transcribed as an interface program (MultiProofs/AlgoProgs.lean, trusted), its meaning on independent values is proved (AlgoLemmas.lean) and its in-place effect on every well-formed injective view follows (algo_<name>_on_views, and on elements() for reverse, fill, copy, find, accumulate, partition, unique); each transcription is compared with libstdc++ itself on every run (x tr lines). All 20 listed algorithms are validated differentially (algorithm x view kinds x data against std::vector); sort, stable_sort, partial_sort, nth_element, rotate are validated only.",
-    "level_note": "PARTIAL by design (DESIGN §6 C03): proved = the interface refinement for arbitrary interface programs; proved for hand transcriptions (trusted to be what libstdc++ runs; validated differentially) = reverse, fill, copy_n, copy, move, copy_backward, swap_ranges, transform, find, equal, accumulate, is_sorted, lexicographical_compare, remove, partition, unique; two-range algorithms are stated for two blocks of rows of ONE view (the interface has one sequence; view-to-view copies are C05); validated only (differential run, reference computed in the harness) = sort, stable_sort, partial_sort, nth_element, rotate, and that libstdc++'s code is an interface program at all. Trusted: Lean kernel (+propext, Classical.choice, Quot.sound), transcription MultiModel/{Iter,Store}.lean, Int for ptrdiff_t.",
+             "returned position and every storage cell outside the written view(s) including guard cells; plus 1..3 transcription cases per program (x tr: one of the transcribed loops x length 0..12 x values with duplicates x valid positions; std::vector<long> against the Lean program, all cells); distinct = different program text; non-trivial = at least one algorithm case on a view built by >= 1 operation"),
+    "level_text": "Theorem proxy_refines_seq (all D >= 1, every well-formed injective view, every program over the proxy interface whose next step may depend on all values read): running the program on memory through begin()/end() proxies (decay read, deep assignment = C05, swap, iterator arithmetic = C02) and then abstracting the rows equals abstracting and running on a list of independent values, with the same returned position and all memory outside the view unchanged; elements_refines_seq: the same through the flat elements() range; positions_are_integers; For 17 algorithms whose libstdc++ implementation is a simple loop (reverse, fill, copy_n, copy, move, copy_backward, swap_ranges, transform, find/find_if, equal, accumulate, is_sorted, lexicographical_compare, remove/remove_if, partition [bidirectional version: result is a permutation, returned position = number of rows satisfying p, all before satisfy p, none after], unique [prefix = input with every row equal to the last kept one dropped], sort on ranges of at most 16 rows [libstdc++'s __insertion_sort; for a strict weak order the result is a sorted permutation]) the loop is hand-transcribed as an interface program (MultiProofs/AlgoProgs.lean, trusted), its meaning on independent values is proved (AlgoLemmas.lean) and its in-place effect on every well-formed injective view follows (algo_<name>_on_views, and on elements() for reverse, fill, copy, find, accumulate, partition, unique, sort<=16); each transcription is compared with libstdc++ itself on every run (x tr lines). All 20 listed algorithms are validated differentially (algorithm x view kinds x data against std::vector); sort on more than 16 rows, stable_sort, partial_sort, nth_element, rotate are validated only.",
+    "level_note": "PARTIAL by design (DESIGN §6 C03): proved = the interface refinement for arbitrary interface programs; proved for hand transcriptions (trusted to be what libstdc++ runs; validated differentially) = reverse, fill, copy_n, copy, move, copy_backward, swap_ranges, transform, find, equal, accumulate, is_sorted, lexicographical_compare, remove, partition, unique, sort (at most 16 rows); two-range algorithms are stated for two blocks of rows of ONE view (the interface has one sequence; view-to-view copies are C05); validated only (differential run, reference computed in the harness) = sort on more than 16 rows, stable_sort, partial_sort, nth_element, rotate, and that libstdc++'s code is an interface program at all. Trusted: Lean kernel (+propext, Classical.choice, Quot.sound), transcription MultiModel/{Iter,Store}.lean, Int for ptrdiff_t.",
 }
